@@ -265,7 +265,9 @@ class Environment:
                 'data': {
                     'bfgdir': self.bfgdir.to_json(),
                     'backend': self.backend,
-                    'backend_version': str(self.backend_version),
+                    'backend_version': (str(self.backend_version)
+                                        if self.backend_version is not None
+                                        else None),
 
                     'host_platform': self.host_platform.to_json(),
                     'target_platform': self.target_platform.to_json(),
@@ -399,7 +401,10 @@ class Environment:
         for i in ('bfgdir', 'srcdir', 'builddir'):
             setattr(env, i, Path.from_json(data[i]).as_directory())
 
-        env.backend_version = Version(data['backend_version'])
+        backend_version = data['backend_version']
+        env.backend_version = (Version(backend_version)
+                               if backend_version not in (None, 'None')
+                               else None)
         env.install_dirs = {
             InstallRoot[k]: Path.from_json(v).as_directory() if v else None
             for k, v in data['install_dirs'].items()
